@@ -689,7 +689,8 @@ pub fn iter_history(r: &mut Rng, hl: usize, double_ended: bool) -> String {
                 68..=77 if double_ended => nth(r).to_ascii_uppercase(),
                 78..=79 => 'c',
                 80..=81 => 'a',
-                82..=99 => nth(r),
+                82..=86 => 'h',
+                87..=99 => nth(r),
                 _ => 'n',
             }
         })
@@ -770,6 +771,81 @@ fn qv_history_cases(r: &mut Rng, t: Tier, n_cases: usize, out: &mut Vec<Case>) {
         }
         out.push(c);
     }
+}
+
+/// the `_with_codes` partitions called directly: random prefix-code tables (not necessarily prefix-free: the
+/// partition only reads `content`/`len`), every shift `1..=max len + 1`, all element widths
+fn partc_cases(r: &mut Rng, t: Tier, degrees: &[u64], out: &mut Vec<Case>) {
+    for &d in degrees {
+        let mut c = Case::new("utils");
+        c.l("cfg 256 0 8 * u8");
+        c.tag(format!("partition_with_codes:{}", d));
+        c.nontrivial = true;
+        for i in 0..scale(t, 40, 300) {
+            let bits = [8u32, 16, 32, 64, 128][i % 5];
+            let nc = r.range(1, if bits == 8 { 40 } else { 70 }) as usize;
+            let step = if d == 4 { 2 } else { 1 };
+            let maxl = *r.pick(&[2u64, 4, 8, 16, 30, 32]);
+            let codes: Vec<(u64, u64)> = (0..nc)
+                .map(|_| {
+                    let len = if r.chance(1, 8) { 0 } else { (r.range(1, maxl / step) * step).min(32) };
+                    let content = if len == 0 { 0 } else if len >= 32 { r.next() & 0xFFFF_FFFF } else { r.next() & ((1u64 << len) - 1) };
+                    (content, len)
+                })
+                .collect();
+            let n = r.range(0, 60) as usize;
+            let vals: Vec<u128> = (0..n).map(|_| r.below(nc as u64) as u128).collect();
+            let flat: Vec<u64> = codes.iter().flat_map(|x| [x.0, x.1]).collect();
+            let mut shift = step;
+            while shift <= maxl + step {
+                c.l(format!("u part{}c {} {} {} {} {}", d, bits, shift, nc, join(&flat), join(&vals)));
+                shift += step * r.range(1, 3);
+            }
+        }
+        out.push(c);
+    }
+}
+
+/// `BitVectorBitPositionsIter::{new, with_pos}` over caller-supplied words (public constructors)
+fn posraw_cases(r: &mut Rng, t: Tier, out: &mut Vec<Case>) {
+    let mut c = Case::new("posraw");
+    c.l("cfg 256 0 8 * u8");
+    c.tag("positions_iter:raw");
+    c.nontrivial = true;
+    for i in 0..scale(t, 120, 900) {
+        let nw = r.range(0, 6) as usize;
+        let ws: Vec<u64> = (0..nw)
+            .map(|_| match r.below(6) {
+                0 => 0,
+                1 => u64::MAX,
+                2 => 1u64 << 63,
+                3 => r.next() & r.next() & r.next(),
+                4 => r.next() | r.next(),
+                _ => r.next(),
+            })
+            .collect();
+        let cap = 64 * nw;
+        let nb = match i % 5 {
+            0 => cap,
+            1 => cap.saturating_sub(r.below(64) as usize),
+            2 => r.below(cap as u64 + 1) as usize,
+            3 => cap.saturating_sub(1),
+            _ => (cap / 64).saturating_sub(1) * 64 + 1,
+        }
+        .min(cap);
+        let bit = r.below(2);
+        let pos = match r.below(8) {
+            0 => "-".to_string(),
+            1 => nb.to_string(),
+            2 => (nb + 1).to_string(),
+            3 => (r.below(nw as u64 + 1) * 64).to_string(),
+            4 => ((r.below(nw as u64 + 1) * 64) as usize).saturating_sub(1).to_string(),
+            5 => usize::MAX.to_string(),
+            _ => r.below(nb as u64 + 2).to_string(),
+        };
+        c.l(format!("u posraw {} {} {} {}", bit, nb, pos, join(&ws)));
+    }
+    out.push(c);
 }
 
 fn utils_cases(r: &mut Rng, t: Tier, out: &mut Vec<Case>) {
@@ -894,6 +970,7 @@ fn utils_cases(r: &mut Rng, t: Tier, out: &mut Vec<Case>) {
         }
         out.push(c);
     }
+    partc_cases(r, t, &[2, 4], out);
     let mut c = Case::new("utils");
     c.l("cfg 256 0 8 * u8");
     c.tag("text_remap");
@@ -958,6 +1035,7 @@ pub fn cases(prop: &str, t: Tier, seed: u64) -> Vec<Case> {
         "C02" => {
             tree_family_cases(r, t, "hqwt", &["len", "is_empty", "get", "rank", "select", "rank_prefetch"], &["dump 0"], scale(t, 72, 480), &mut out);
             huff_profile_cases(r, t, "hqwt", &["get", "rank", "select"], &["dump 0"], &mut out);
+            partc_cases(r, t, &[4], &mut out);
             if t == Tier::Thorough {
                 out.push(deepcode_case("hqwt"));
             }
@@ -966,6 +1044,7 @@ pub fn cases(prop: &str, t: Tier, seed: u64) -> Vec<Case> {
             tree_family_cases(r, t, "wt", &["len", "is_empty", "n_levels", "get", "rank", "select"], &["dump 0"], scale(t, 48, 300), &mut out);
             tree_family_cases(r, t, "hwt", &["len", "is_empty", "get", "rank", "select"], &["dump 0"], scale(t, 48, 300), &mut out);
             huff_profile_cases(r, t, "hwt", &["get", "rank", "select"], &["dump 0"], &mut out);
+            partc_cases(r, t, &[2], &mut out);
             if t == Tier::Thorough {
                 out.push(deepcode_case("hwt"));
             }
@@ -973,7 +1052,10 @@ pub fn cases(prop: &str, t: Tier, seed: u64) -> Vec<Case> {
         "C05" => rsq_cases(r, t, &["len", "is_empty", "get", "rank", "select", "occs", "occs_smaller"], &["dump 0"], scale(t, 150, 800), &mut out),
         "C06" => rsbin_cases(r, t, &["rsn", "rsw"], &["get", "rank1", "rank0", "select1", "select0", "n_ones", "n_zeros"], &["dump 1"], scale(t, 160, 900), &mut out),
         "C07" => darray_cases(r, t, &["dump 1"], scale(t, 90, 500), &mut out),
-        "C08" => bvm_history_cases(r, t, scale(t, 80, 600), &mut out),
+        "C08" => {
+            bvm_history_cases(r, t, scale(t, 80, 600), &mut out);
+            posraw_cases(r, t, &mut out);
+        }
         "C09" => {
             // rank_prefetch == rank on every alias, long sequences, >= 3 levels
             for i in 0..scale(t, 40, 240) {
@@ -1517,6 +1599,7 @@ pub fn cases(prop: &str, t: Tier, seed: u64) -> Vec<Case> {
             darray_cases(r, t, &[], scale(t, 12, 80), &mut out);
             bvm_history_cases(r, t, scale(t, 16, 100), &mut out);
             prefetch_api_cases(r, scale(t, 10, 40), &mut out);
+            posraw_cases(r, t, &mut out);
             if t == Tier::Thorough {
                 out.push(deepcode_case("hqwt"));
             }
